@@ -143,6 +143,18 @@ CHECKS['C09'] = dict(
     technique="Coq proof over tables regenerated from the source + paraphrase differential oracle",
     design="6.C09")
 
+CHECKS['C10'] = dict(
+    text="Coq: structural laws of compilation as a left fold over sentences, for any carried state, sentence and rule types and any step "
+         "function (C10_prefix, C10_order, C10_remove), and C10_no_leak over facts regenerated from /repo: every instance attribute of "
+         "CNLTransformer / ASPConverter is created in __init__ and is either carried on purpose (problem/specification under construction, "
+         "output encoding, temporal concepts already printed) or re-created by _clear / clear_support_variables, which run after every "
+         "sentence / rule. That the real compiler is such a fold (conversion runs after the whole text is parsed and may consult the final "
+         "signature table) is decided by the oracle on the implementation: every prefix cut gives a rule prefix, every removable sentence "
+         "(unchanged get_symbols and #const lines) removes exactly its own rules: partial until the compile model proves the fold form.",
+    note="Trusted: Coq kernel; effect translator; sentence splitting of corpus texts (unsafe texts skipped).",
+    technique="Coq fold laws + generated reset-coverage theorem + prefix/removal differential oracle",
+    design="6.C10")
+
 NOT_YET = {}
 
 
